@@ -7,9 +7,17 @@ package ledger
 
 // frame contracts: building a script from a request only creates fresh objects
 // C09: reference, timestamp and metadata of the request pass through unchanged
+// C10: the script generated for a revert. Forced: every source clause naming an account variable is written together with
+// its own overdraft allowance (the allowance belongs to the clause, not to the account: a second send from the same
+// account needs its own). Unforced: no allowance is ever written, so the revert is refused rather than overdrawing.
 //@ func ledger.TxToScriptData
 //@   ensures ret.Timestamp == txData.Timestamp && ret.Reference == txData.Reference && (txData.Metadata != nil ==> ret.Metadata == txData.Metadata) // C09
-//@   modifies map[string]string, map[string]ledger.variable
+//@   ensures allowUnboundedOverdrafts ==> sbOverdrafts - old(sbOverdrafts) == sbSources - old(sbSources) // C10
+//@   ensures !allowUnboundedOverdrafts ==> sbOverdrafts == old(sbOverdrafts) // C10
+//@   loop 3 invariant sbOverdrafts == old(sbOverdrafts) && sbSources == old(sbSources) // C10
+//@   loop 5 invariant sbOverdrafts == old(sbOverdrafts) && sbSources == old(sbSources) // C10
+//@   loop 6 invariant (allowUnboundedOverdrafts ==> sbOverdrafts - old(sbOverdrafts) == sbSources - old(sbSources)) && (!allowUnboundedOverdrafts ==> sbOverdrafts == old(sbOverdrafts)) // C10
+//@   modifies map[string]string, map[string]ledger.variable, ghost sbSources, ghost sbOverdrafts
 //@ func (ledger.ScriptV1).ToCore
 //@   ensures ret.Plain == s.Script.Plain // C09
 //@   modifies map[string]string
@@ -17,7 +25,7 @@ package ledger
 //@   requires req != nil
 //@   ensures ret != nil && ret.Timestamp == req.Timestamp && ret.Reference == req.Reference && (req.Metadata != nil ==> ret.Metadata == req.Metadata) // C09
 //@   ensures len(req.Postings) == 0 ==> ret.Script.Plain == req.Script.Script.Plain // C09
-//@   modifies map[string]string, map[string]ledger.variable
+//@   modifies map[string]string, map[string]ledger.variable, ghost sbSources, ghost sbOverdrafts
 
 // the hash of a chained log is a function of the previous hash (when there is one) and of this log's content and id;
 // sha256 and encoding/json are outside the verifier, so the digest is the uninterpreted hashOf
@@ -91,6 +99,32 @@ package ledger
 //@ func ledger.HydrateLog
 //@   requires declaredConst(_type, "ledger.LogType")
 //@   nopanic
+//@   property C13
+// writer side of the same pairing: each constructor stores, under its log type, the payload type HydrateLog reads that type back into
+// (callers keep seeing the bodies: inline)
+//@ func ledger.NewTransactionLogWithDate
+//@   ensures ret != nil && ret.Type == NewTransactionLogType && typeis(ret.Data, "ledger.NewTransactionLogPayload")
+//@   inline
+//@   property C13
+//@ func ledger.NewSetMetadataLog
+//@   ensures ret != nil && ret.Type == SetMetadataLogType && typeis(ret.Data, "ledger.SetMetadataLogPayload")
+//@   inline
+//@   property C13
+//@ func ledger.NewDeleteMetadataLog
+//@   ensures ret != nil && ret.Type == DeleteMetadataLogType && typeis(ret.Data, "ledger.DeleteMetadataLogPayload")
+//@   inline
+//@   property C13
+//@ func ledger.NewSetMetadataOnAccountLog
+//@   ensures ret != nil && ret.Type == SetMetadataLogType && typeis(ret.Data, "ledger.SetMetadataLogPayload")
+//@   inline
+//@   property C13
+//@ func ledger.NewSetMetadataOnTransactionLog
+//@   ensures ret != nil && ret.Type == SetMetadataLogType && typeis(ret.Data, "ledger.SetMetadataLogPayload")
+//@   inline
+//@   property C13
+//@ func ledger.NewRevertedTransactionLog
+//@   ensures ret != nil && ret.Type == RevertedTransactionLogType && typeis(ret.Data, "ledger.RevertedTransactionLogPayload")
+//@   inline
 //@   property C13
 // typed target id: what the decoder puts into TargetID has one of the dynamic types the writers put there
 // (for a transaction: *big.Int), so a decoded entry equals the written one; the account branch goes through
